@@ -298,6 +298,15 @@ pub fn dup_above_std(fd: i32) -> Result<i32> {
     fcntl(fd, libc::F_DUPFD_CLOEXEC, Some(3))
 }
 
+/// Move a file that has the number of a standard descriptor above them.
+pub fn above_std(file: File) -> Result<File> {
+    if file.as_raw_fd() > 2 {
+        return Ok(file);
+    }
+    let fd = dup_above_std(file.as_raw_fd())?;
+    Ok(unsafe { File::from_raw_fd(fd) })
+}
+
 pub fn clear_cloexec(fd: i32) -> Result<()> {
     let old = fcntl(fd, F_GETFD, None)?;
     fcntl(fd, F_SETFD, Some(old & !FD_CLOEXEC))?;
